@@ -96,7 +96,7 @@ def run(ctx):
     rules.who(ctx, "who:Service.fetching", "mutation of Service.fetching", muts,
               [TF, r"^radicle_node::service::Service::fetched$", r"^radicle_node::service::Service::disconnected$",
                r"^radicle_node::service::Service::new$"])
-    ctx.floor("who:Service.fetching", len(muts), 3, "mutating uses of Service.fetching (entry, remove, retain)")
+    ctx.floor("who:Service.fetching", len(muts), 2, "mutating uses of Service.fetching (entry, remove, retain)")
 
     # 3. attribution in Service::fetched
     fd = db.one(r"^radicle_node::service::Service::fetched$")
@@ -109,7 +109,7 @@ def run(ctx):
             n = c.get("n") or ""
             if re.search(r"Session::fetched$|Sender.*::send$|Service::(dequeue_fetches|seed_discovered|add_inventory|announce_refs)$|Emitter.*::emit$|Outbox::disconnect$", n):
                 effects.append(bb)
-        ctx.floor("fetched:effects", len(effects), 4, "effects of a worker result in Service::fetched")
+        ctx.floor("fetched:effects", len(effects), 2, "effects of a worker result in Service::fetched")
 
         def same_peer(f):
             if f[0] != "cmp" or f[1] != "Eq":
